@@ -10,7 +10,9 @@ import ErdosVerif.Driver.Graph
 import ErdosVerif.Driver.TaskGraph
 import ErdosVerif.Driver.Greedy
 import ErdosVerif.Driver.Release
-import ErdosVerif.Driver.Mip
+import ErdosVerif.Driver.MipIlp
+import ErdosVerif.Driver.MipTetri
+import ErdosVerif.Driver.MipZ3
 import ErdosVerif.Driver.Clockwork
 import ErdosVerif.Driver.Strl
 import ErdosVerif.Driver.Sim
@@ -29,7 +31,9 @@ def dispatch (line : String) : Json :=
     | .ok "taskgraph" => TaskGraph.handle j
     | .ok "greedy" => Greedy.handle j
     | .ok "release" => Release.handle j
-    | .ok "mip" => Mip.handle j
+    | .ok "mip_ilp" => MipIlp.handle j
+    | .ok "mip_tetri" => MipTetri.handle j
+    | .ok "mip_z3" => MipZ3.handle j
     | .ok "clockwork" => Clockwork.handle j
     | .ok "strl" => Strl.handle j
     | .ok "sim" => Sim.handle j
